@@ -8,6 +8,9 @@
 (* cls: "dir" | "xml" (well-formed) | "xmlbad" (malformed) | "xmlent" (uses  *)
 (*      the entity &foo;) | "json" | "html" | "txtjson" (JSON in a .txt      *)
 (*      file) | "noext" | "dangling" (unreadable: dangling symlink, .xml)    *)
+(*      | "linkxml" (a symbolic link named *.xml to a well-formed XML file   *)
+(*      elsewhere: an input like any other) | "stdinxml" (the argument "-":  *)
+(*      well-formed XML on standard input; needs -t, never prefixed)         *)
 (* Flags: a m n r : BOOLEAN, t : "" | "xml" | "json" | "html", e : BOOLEAN   *)
 (*      (-e foo=bar), u : BOOLEAN (-u: non-strict XML decoding),             *)
 (*      q : "ns" | "empty" | "num" (the kind of query given)                 *)
@@ -25,13 +28,13 @@ RECURSIVE Under(_, _, _)
 Under(tree, i, fuel) == IF tree[i].in = 0 \/ fuel = 0 THEN FALSE ELSE TRUE
 \* a directory is descended only with -r; without it the directory argument is reported and skipped
 Visited(tree, fl, i) == tree[i].in = 0 \/ fl.r
-ExtType(cls) == CASE cls \in {"xml", "xmlbad", "xmlent", "dangling"} -> "xml" [] cls = "json" -> "json" [] cls = "html" -> "html" [] OTHER -> "none"
+ExtType(cls) == CASE cls \in {"xml", "xmlbad", "xmlent", "dangling", "linkxml"} -> "xml" [] cls = "json" -> "json" [] cls = "html" -> "html" [] OTHER -> "none"
 ParseType(fl, cls) == IF fl.t # "" THEN fl.t ELSE ExtType(cls)
 \* does the content parse under the chosen type?  ("unk": not determined - e.g. JSON text read as XML)
 Parses(fl, cls, pt) ==
   CASE cls = "dangling" -> "no"
     [] pt = "none" -> "no"
-    [] cls = "xml" -> IF pt = "xml" THEN "yes" ELSE "unk"
+    [] cls \in {"xml", "linkxml", "stdinxml"} -> IF pt = "xml" THEN "yes" ELSE "unk"
     [] cls = "xmlbad" -> IF pt = "xml" THEN (IF fl.u THEN "unk" ELSE "no") ELSE "unk"      \* what a lenient decoder makes of it is not specified
     [] cls = "xmlent" -> IF pt = "xml" THEN (IF fl.e \/ fl.u THEN "yes" ELSE "no") ELSE "unk" \* lenient: the reference stays literal unless -e binds it
     [] cls \in {"json", "txtjson"} -> IF pt = "json" THEN "yes" ELSE "unk"
@@ -48,6 +51,6 @@ FileSpec(tree, fl, i) ==
   IN IF IsDirE(e) THEN [visit |-> visit, parse |-> "none", diag |-> (e.in = 0 /\ ~fl.r), records |-> "none", prefix |-> FALSE, det |-> TRUE]
      ELSE IF ~visit THEN [visit |-> FALSE, parse |-> "none", diag |-> FALSE, records |-> "none", prefix |-> FALSE, det |-> TRUE]
      ELSE [visit |-> TRUE, parse |-> pt, diag |-> (ok = "no"), records |-> IF ok = "yes" THEN Records(fl) ELSE "none",
-           prefix |-> ~fl.n, det |-> ok # "unk"]
+           prefix |-> ~fl.n /\ e.cls # "stdinxml", det |-> ok # "unk"]
 Spec(tree, fl) == [i \in 1..Len(tree) |-> FileSpec(tree, fl, i)]
 =============================================================================
